@@ -18,7 +18,9 @@ AREAS = []
 RULE = (
     "end to end (independent of the Coq model): an option record o assigns values to a subset of the ten documented create "
     "options (announce 1-3 URLs, web-seed 1-2, http-seed 1-2, private, source, comment, piece-length as exponent or byte count, "
-    "meta-version 1/2/3, out = file / directory with trailing slash / relative name / absent, align); quick = the empty set, "
+    "meta-version 1/2/3, out = file / directory with trailing slash / relative name / absent / a not-yet-existing file inside the content directory, inside "
+    "a sub-directory of it, or a relative name with cwd = the content directory and content '.' (every route run then works on its own "
+    "pristine copy of the payload, and info must list exactly the content files, never the metafile or a probe file), align); quick = the empty set, "
     "every single option (2 draws), all 45 pairs, the full set (3 draws), 16 aimed records and random subsets; thorough = all "
     "1024 subsets x 3 value draws.  Every record is turned into a metafile by three routes, each run in a FRESH interpreter "
     "with HOME and the working directory pointed at per-run scratch directories: (a) `python -m torrentfile create|new|<implicit> ...` with "
@@ -105,7 +107,8 @@ T_POOL = ["plain", "two words", "true", "false", "True", "FALSE", "100% pure", "
           ";lead", "k=v", "= x", "a: b", "[config]", "ünïcödé ☃", "日本語 コメント",
           "$HOME ~ `x` \"q\" 'q' \\n", "two\nlines", "0", "1", "-dash", "x" * 300, "", "new", "info"]
 PL_POOL = ["14", "15", "16", "17", "18", "16384", "32768"]
-OUT_POOL = ["file", "dir", "rel", "spacefile"]
+OUT_POOL = ["file", "dir", "rel", "spacefile", "in-content", "in-content-sub", "cwd-content"]
+IN_CONTENT = ("in-content", "in-content-sub", "cwd-content")     # the metafile is written INSIDE the content directory
 
 TREE = [(("a.bin",), 3000), (("b", "c.bin"), 5000), (("big.bin",), 70000), (("z e.txt",), 1)]
 SINGLE = 40000
@@ -184,6 +187,8 @@ def draw(rng, subset, aimed=None):
         o["payload"] = aimed["payload"]
     elif rng.random() < 0.12:
         o["payload"] = "single"
+    if o.get("out") in IN_CONTENT:
+        o.pop("payload", None)
     ef = [b for b in BOOL_OPTS if b not in o and rng.random() < 0.3]
     if ef:
         o["explicit_false"] = ef       # written as `false` in the ini and as False keyword; nothing on the command line
@@ -202,6 +207,11 @@ AIMED = [
     ({"meta-version"}, {"meta-version": "3"}),                                              # D21 class
     ({"meta-version", "align", "piece-length"}, {"meta-version": "3", "piece-length": "32768"}),
     ({"meta-version", "align"}, {"meta-version": "2"}),
+    ({"out"}, {"out": "in-content", "payload": "tree"}), ({"out"}, {"out": "cwd-content", "payload": "tree"}),
+    ({"out", "meta-version"}, {"out": "in-content-sub", "meta-version": "2", "payload": "tree"}),
+    ({"out", "meta-version", "announce"}, {"out": "cwd-content", "meta-version": "3", "payload": "tree"}),
+    ({"out", "align", "web-seed"}, {"out": "in-content", "payload": "tree"}),
+    ({"out", "http-seed"}, {"out": "in-content-sub", "payload": "tree"}),
     ({"meta-version"}, {"meta-version": "1"}), ({"meta-version", "comment"}, {"meta-version": "1", "comment": "explicit default"}),
     ({"align", "piece-length"}, {"piece-length": "16384", "payload": "tree"}),
     ({"announce", "web-seed", "http-seed"}, {"announce": [A_POOL[2], A_POOL[6], A_POOL[1]], "payload": "single"}),
@@ -254,6 +264,12 @@ def out_value(o, w):
         return os.path.join(w, "out") + "/", os.path.join("out", name)
     if kind == "rel":
         return "rel.torrent", os.path.join("cwd", "rel.torrent")
+    if kind == "in-content":
+        return os.path.join(w, "payload", "tree", "x.torrent"), os.path.join("payload", "tree", "x.torrent")
+    if kind == "in-content-sub":
+        return os.path.join(w, "payload", "tree", "b", "x.torrent"), os.path.join("payload", "tree", "b", "x.torrent")
+    if kind == "cwd-content":       # relative name, the working directory IS the content directory, content given as "."
+        return "x.torrent", os.path.join("payload", "tree", "x.torrent")
     if kind == "decoyfile":
         return os.path.join(w, "out", "decoy.torrent"), os.path.join("out", "decoy.torrent")
     return None, os.path.join("cwd", name)
@@ -501,6 +517,13 @@ def run_route(root, tag, o, r):
         os.makedirs(os.path.join(w, d))
     cwd, home = os.path.join(w, "cwd"), os.path.join(w, "home")
     content = content_of(root, o)
+    inside = o.get("out") in IN_CONTENT and o.get("payload") != "single"
+    if inside:
+        # the metafile lands in the payload: every route run gets its own pristine copy
+        content = os.path.join(w, "payload", "tree")
+        shutil.copytree(os.path.join(root, "payload", "tree"), content)
+        if o["out"] == "cwd-content":
+            cwd, content = content, "."
     if r.get("content_relative"):
         content = os.path.relpath(content, cwd)
     expected_rel = out_value(o, w)[1]
@@ -512,6 +535,8 @@ def run_route(root, tag, o, r):
     elif r["route"] == "config":
         text = ini_text(o, r, w)
         f = r.get("find", "cwd")
+        if f == "cwd" and cwd != os.path.join(w, "cwd"):
+            f = "config-path"       # an ini inside the content directory would be part of the payload
         ini = ini_path(f, w)
         os.makedirs(os.path.dirname(ini), exist_ok=True)
         with open(ini, "w", encoding="utf-8") as fd:
@@ -520,7 +545,7 @@ def run_route(root, tag, o, r):
         decoy_texts = {}
         for loc, drec in (r.get("decoys") or {}).items():
             dp = ini_path(loc, w)
-            if dp == ini:
+            if dp == ini or (loc == "cwd" and cwd != os.path.join(w, "cwd")):
                 continue
             os.makedirs(os.path.dirname(dp), exist_ok=True)
             decoy_texts[loc] = ini_text(drec, {"delim": r.get("delim", " = ")}, w)
@@ -545,6 +570,8 @@ def run_route(root, tag, o, r):
         spec = kw_spec(o, r, w, content)
         argv = spec
         cmd = [core.PY, "-c", KW_RUNNER, json.dumps(spec)]
+    for dp, _, fns in os.walk(w):
+        mine.update(os.path.relpath(os.path.join(dp, n), w) for n in fns)
     try:
         p = subprocess.run(cmd, cwd=cwd, env=core.impl_env({"HOME": home, "PYTHONUTF8": "1"}), capture_output=True, timeout=180)
         rc, err = p.returncode, p.stderr.decode("utf-8", "replace")[-600:]
@@ -630,6 +657,27 @@ def landing_errors(o, meta):
         | ({b"comment"} if o.get("comment") else set())
     if set(info) != ik and not specific:
         errs.append(("(info keys)", sorted(k.decode() for k in ik), sorted(k.decode("utf-8", "replace") for k in info)))
+    # the payload as listed: exactly the content files (never the metafile itself, a probe file or a configuration file)
+    if not single:
+        real_paths = sorted(tuple(c.encode() for c in comps) for comps, _ in TREE)
+        if isinstance(info.get(b"files"), list):
+            listed = sorted(tuple(f.get(b"path", [])) for f in info[b"files"] if isinstance(f, dict) and b"attr" not in f)
+            if listed != real_paths:
+                errs.append(("out", {"info.files lists exactly": ["/".join(map(bytes.decode, p)) for p in real_paths]},
+                             {"info.files": ["/".join(x.decode("utf-8", "replace") for x in p) for p in listed]}))
+        if isinstance(info.get(b"file tree"), dict):
+            leaves = []
+
+            def walk(node, pre):
+                for k, v in node.items():
+                    if k == b"" and isinstance(v, dict):
+                        leaves.append(pre)
+                    elif isinstance(v, dict):
+                        walk(v, pre + (k,))
+            walk(info[b"file tree"], ())
+            if sorted(leaves) != real_paths:
+                errs.append(("out", {"info['file tree'] lists exactly": ["/".join(map(bytes.decode, p)) for p in real_paths]},
+                             {"file tree": ["/".join(x.decode("utf-8", "replace") for x in p) for p in sorted(leaves)]}))
     # align: v1 multi-file only
     files = info.get(b"files")
     if ver == "1" and not single and isinstance(files, list) and isinstance(pl, int) and pl > 0:
@@ -751,7 +799,9 @@ def case_classes(o, r, res):
         cl.append("URL with query string")
     if "piece-length" in o:
         cl.append("piece-length exponent" if int(o["piece-length"]) < 100 else "piece-length byte count")
-    cl.append({"file": "out file", "spacefile": "out file", "dir": "out dir/", "rel": "out relative", None: "out absent"}[o.get("out")])
+    cl.append({"file": "out file", "spacefile": "out file", "dir": "out dir/", "rel": "out relative", None: "out absent",
+               "in-content": "out inside the content directory", "in-content-sub": "out inside a sub-directory of the content",
+               "cwd-content": "out relative with cwd = content directory and content '.'"}[o.get("out")])
     ver = o.get("meta-version", "1")
     cl.append(f"meta-version {ver}" + ("" if "meta-version" in o else " (default)"))
     if o.get("align"):
@@ -833,7 +883,8 @@ REQUIRED = (
        "ini priority: cwd over home-torrentfile", "ini priority: cwd over home-config",
        "ini priority: cwd over home-config + home-torrentfile", "ini priority: home-torrentfile over home-config",
        "--config-path while other ini files exist", "ini writes the default meta-version = 1 explicitly",
-       "find_config_file: presence combination"])
+       "find_config_file: presence combination", "out inside the content directory",
+       "out inside a sub-directory of the content", "out relative with cwd = content directory and content '.'"])
 
 
 def require_classes(ctx, required, minimum=2):
@@ -1210,7 +1261,7 @@ def parse_cases(ctx, parser):
             return [flag]
         if a.nargs is None:
             if a.choices:
-                return [flag, rng.choice(list(a.choices) + (["4"] if rng.random() < 0.15 else []))]
+                return [flag, str(rng.choice(list(a.choices) + (["4"] if rng.random() < 0.15 else [])))]
             return [flag, rng.choice(TOK_VALUES)]
         return [flag] + rng.sample(TOK_URLS, rng.choice([1, 2, 3]))
     cases = []
@@ -1620,8 +1671,12 @@ def find_config_tie(ctx):
 
 def run(ctx, model_ok):
     os.environ["HOME"] = "/nonexistent-home"
-    find_config_tie(ctx)
-    tie(ctx, model_ok)
+    for part in (find_config_tie, lambda c: tie(c, model_ok)):
+        try:
+            part(ctx)
+        except Exception as e:  # noqa  -- a crashing tie must neither look like a pass nor keep the search from running
+            import traceback
+            ctx.broken.append("tie crashed: " + "".join(traceback.format_exception(e))[-1200:])
     end_to_end(ctx)
 
 
